@@ -7,7 +7,7 @@ N=4; if [ "$1" = "-j" ]; then N=$2; shift 2; fi
 dirs="$@"; [ -z "$dirs" ] && dirs=$(ls seeded)
 dirs=($dirs)
 worker() {
-  i=$1; wt=/tmp/sr_wt$i; vs=/tmp/sr_vs$i
+  i=$1; wt=/tmp/sr_wt$$_$i; vs=/tmp/sr_vs$$_$i
   rm -rf $wt; git -C /repo worktree prune; git -C /repo worktree add --detach $wt HEAD >/dev/null 2>&1 || { echo "worker $i: cannot create worktree"; return; }
   mkdir -p $vs
   k=0
